@@ -325,13 +325,56 @@ class CallMixin(ExecBase):
         p.pc.append(obj_of_id(r) == v)      # id() is injective on live objects
         return [("ok", p, sv_int(r))]
 
+    def _extreme_of_seq(s, p, seqv, node, ge):
+        """max(seq) / min(seq) over ONE sequence of ints: ValueError when it is empty, else an int m that bounds every element
+        (index-quantified fact, instantiated at every read of the sequence and at the witness) and IS one of them"""
+        sp = seqv.get("special")
+        if sp is not None and sp[0] == "genexp":
+            res = []
+            for st, p1, v in sp[1](s, p, "list"):
+                res += s._extreme_of_seq(p1, v, node, ge) if st == "ok" else [(st, p1, v)]
+            return res
+        if seqv.get("ty") not in ("list", "tuple") and not s.unit.options.get("iter_any_seq"):
+            raise Unsupported(f"max()/min() of {seqv} @ line {getattr(node, 'lineno', '?')}")
+        H = p.snap()
+        n = H.length(seqv.t)
+        some, none = s.fork(p, n > 0)
+        res = []
+        if some is not None:
+            m, w = fresh_int("extreme"), fresh_int("extreme_at")
+            t = seqv.t
+            some.pc += [w >= 0, w < n, Val.i(some.elem(t, w, H)) == m]
+            def bound(pth, j):
+                e = Val.i(H.raw(t, j))
+                return Implies(And(j >= H.lo_(t), j < H.hi_(t)), (m >= e) if ge else (m <= e))
+            some.add_schema(t, bound)
+            srcv = seqv.get("comp_of")
+            if seqv.get("aligned") and srcv is not None and srcv.get("special") is None and srcv.get("ty") in ("list", "tuple", "deque"):
+                # a map over a stored sequence: whoever reads source item j also learns the bound for element j
+                def via_source(pth, ja, st=srcv.t):
+                    pth.read(t, z3.simplify(H.lo_(t) + (ja - H.lo_(st))), H)
+                    return BoolVal(True)
+                some.add_schema(srcv.t, via_source)
+            cn = z3.simplify(n)
+            if z3.is_int_value(cn) and cn.as_long() <= 16:
+                for j_ in range(cn.as_long()):             # concrete length: the bound at every index, eagerly
+                    some.read(t, z3.simplify(H.lo_(t) + j_), H)
+            res.append(("ok", some, sv_int(m)))
+        if none is not None:
+            res.append(s.raise_new(none, "ValueError", site="max/min of an empty sequence"))
+        return res
+
     def b_max(s, p, args, kwargs, node):
+        if len(args) == 1 and not kwargs:
+            return s._extreme_of_seq(p, args[0], node, True)
         if len(args) != 2 or kwargs:
             raise Unsupported("max() shape")
         a, b = Val.i(args[0].t), Val.i(args[1].t)
         return [("ok", p, sv_int(If(a >= b, a, b)))]
 
     def b_min(s, p, args, kwargs, node):
+        if len(args) == 1 and not kwargs:
+            return s._extreme_of_seq(p, args[0], node, False)
         if len(args) != 2 or kwargs:
             raise Unsupported("min() shape")
         a, b = Val.i(args[0].t), Val.i(args[1].t)
